@@ -156,13 +156,19 @@ def build_optimizer(name, hyperparams, hp_numpy=False):
 
 
 def run_prelude(cfg, space):
-    """Earlier tasks on the same space (a history of tasks): plain, unobserved Opytimizer.start() calls with the same objective."""
+    """Earlier tasks on the same space (a history of tasks): plain, unobserved Opytimizer.start() calls -- with the objective of the
+    observed task, or with the task's own objective (`objective`) and iteration count (`n_iterations`, written to the space before the
+    task as a user would; the observed task's count is restored afterwards)."""
     from opytimizer import Opytimizer
     from opytimizer.core.function import Function
-    raw = user_objective(cfg)
     for pre in cfg.get('prelude') or []:
+        raw = user_objective(dict(cfg, objective=pre['objective']) if pre.get('objective') else cfg)
+        if pre.get('n_iterations'):
+            space.n_iterations = int(pre['n_iterations'])
         with np.errstate(all='ignore'):
             Opytimizer(space=space, optimizer=build_optimizer(pre['optimizer'], pre.get('hyperparams')), function=Function(pointer=raw)).start()
+    if any(pre.get('n_iterations') for pre in cfg.get('prelude') or []):
+        space.n_iterations = cfg['n_iterations']
 
 
 def build(cfg, fwrap, space=None, opt=None):
